@@ -5,7 +5,14 @@ here is a tool failure (exit 2)."""
 UNITS = {
     "u01_bloom": {"verus": "specs/u01_bloom.vt.rs"},
     "u02_parse": {"verus": "specs/u02_parse.vt.rs"},
+    "u03_chunk": {"verus": "specs/u03_chunk.vt.rs"},
+    "u04_ids": {"verus": "specs/u04_ids.vt.rs"},
+    "u10_changes": {"verus": "specs/u10_changes.vt.rs"},
 }
+CHUNK = "rust/automerge/src/storage/chunk.rs"
+EXID = "rust/automerge/src/exid.rs"
+CURSOR = "rust/automerge/src/cursor.rs"
+TYPES = "rust/automerge/src/types.rs"
 
 BLOOM = "rust/automerge/src/sync/bloom.rs"
 
@@ -27,6 +34,30 @@ HARNESSES = {
     "u01_query_total": {"crate": "automerge", "file": BLOOM, "fn": "contains_hash, get_probes", "mode": "bounded", "bound": "shapes (0B,7p) (0B,0p) (1B,1p) (2B,7p), symbolic contents"},
     "u01_from_hashes_2": {"crate": "automerge", "file": BLOOM, "fn": "from_hashes", "mode": "bounded", "bound": "2 symbolic hashes"},
     "u01_roundtrip_1": {"crate": "automerge", "file": BLOOM, "fn": "to_bytes, parse", "mode": "bounded", "bound": "1 entry (2 bytes of bits), symbolic bits, probes <= 255"},
+    # ---- U03 chunk
+    "u03_header_parse_q": {"crate": "automerge", "file": CHUNK, "fn": "Header::parse, Header::write, Header::len, Header::data_bytes", "mode": "bounded",
+                           "bound": "all inputs of <= 20 bytes (every header shape up to a 10-byte length field + data up to the remaining bytes); SHA-256 stubbed",
+                           "stubs": ["hash -> hash_stub"], "timeout_s": 900},
+    "u03_header_parse_t": {"crate": "automerge", "file": CHUNK, "fn": "Header::parse, Header::write", "mode": "bounded", "bound": "all inputs of <= 24 bytes; SHA-256 stubbed",
+                           "stubs": ["hash -> hash_stub"], "tier": "thorough", "timeout_s": 1800},
+    "u03_checksum_valid": {"crate": "automerge", "file": CHUNK, "fn": "Header::checksum_valid, CheckSum::from(ChangeHash), ChangeHash::checksum", "mode": "complete",
+                           "bound": "all 32-byte hashes x all 4-byte checksums (loop-free)"},
+    "u03_chunktype_codes": {"crate": "automerge", "file": CHUNK, "fn": "ChunkType::try_from(u8), u8::from(ChunkType)", "mode": "complete", "bound": "all u8 (loop-free)"},
+    "u03_header_roundtrip_0": {"crate": "automerge", "file": CHUNK, "fn": "Header::new, Header::write, Header::parse", "mode": "bounded", "bound": "empty data; SHA-256 stubbed", "stubs": ["hash -> hash_stub"]},
+    "u03_header_roundtrip_3": {"crate": "automerge", "file": CHUNK, "fn": "Header::new, Header::write, Header::parse", "mode": "bounded", "bound": "3 data bytes; SHA-256 stubbed", "stubs": ["hash -> hash_stub"]},
+    "u03_leb128_writer_matches_parser": {"crate": "automerge", "file": CHUNK, "fn": "leb128::write::unsigned (dependency), parse::leb128_u64, ulebsize", "mode": "complete",
+                                         "bound": "all u64; loops bounded by the 10-byte encoding width (unwind 12, unwinding assertions on)",
+                                         "backs": "assumed writer contract `out == old ++ leb(n)` of the Verus units"},
+    # ---- U04 ids
+    "u04_opid_order": {"crate": "automerge", "file": TYPES, "fn": "OpId::cmp, OpId::partial_cmp", "mode": "complete", "bound": "all triples of (u32,u32) ids (loop-free)"},
+    "u04_opid_actor_shift": {"crate": "automerge", "file": TYPES, "fn": "OpId::with_new_actor, OpId::without_actor", "mode": "complete", "bound": "all ids with actor < u32::MAX, all usize indexes (loop-free)"},
+    "u04_opid_new": {"crate": "automerge", "file": TYPES, "fn": "OpId::new, OpId::counter, OpId::actor", "mode": "complete", "bound": "all in-range (u64, usize) (loop-free)"},
+    "u04_exid_try_from_total_q": {"crate": "automerge", "file": EXID, "fn": "ExId::try_from(&[u8])", "mode": "bounded", "bound": "all inputs of <= 6 bytes", "timeout_s": 900},
+    "u04_exid_try_from_total_t": {"crate": "automerge", "file": EXID, "fn": "ExId::try_from(&[u8])", "mode": "bounded", "bound": "all inputs of <= 12 bytes", "tier": "thorough", "timeout_s": 2400},
+    "u04_cursor_from_str_total_q": {"crate": "automerge", "file": CURSOR, "fn": "Cursor::from_str", "mode": "bounded", "bound": "all UTF-8 strings of <= 2 bytes (contains the empty string and a non-ASCII first character)", "timeout_s": 900},
+    "u04_cursor_from_str_total_t": {"crate": "automerge", "file": CURSOR, "fn": "Cursor::from_str", "mode": "bounded", "bound": "all UTF-8 strings of <= 4 bytes", "tier": "thorough", "timeout_s": 3600},
+    "u04_cursor_bytes_total_q": {"crate": "automerge", "file": CURSOR, "fn": "Cursor::try_from(&[u8]), parse_0", "mode": "bounded", "bound": "all inputs of <= 5 bytes", "timeout_s": 900},
+    "u04_cursor_bytes_total_t": {"crate": "automerge", "file": CURSOR, "fn": "Cursor::try_from(&[u8]), parse_0", "mode": "bounded", "bound": "all inputs of <= 12 bytes", "tier": "thorough", "timeout_s": 3600},
     "u01_roundtrip_3": {"crate": "automerge", "file": BLOOM, "fn": "to_bytes, parse", "mode": "bounded", "bound": "3 entries (4 bytes of bits)", "tier": "thorough"},
 }
 
@@ -57,6 +88,75 @@ PROPERTIES = {
                        "get_bit's assumed contract, the from_hashes bridge and the parse/to_bytes round trip are Kani stand-ins (bounded, listed).",
     },
 }
+
+PROPERTIES.update({
+    "C04": {
+        "level": "proof",
+        "verus": [("u10_changes", ["transaction_args", "update_heads", "update_deps", "lemma_heads_preserved", "lemma_prefix_set_step"])],
+        "kani": [],
+        "not_under_contract": ["ChangeGraph::add_changes / add_nodes", "Automerge::isolate_actor", "get_or_create_actor_index", "seq_for_actor / max_op / get_hash / get_heads (assumed accessor contracts)", "loads"],
+        "trusted": ["std BTreeSet/HashSet as mathematical sets (assumed stub contracts)", "<[T]>::to_vec / <[T]>::contains assume_specification", "Change accessors (hash, deps) as abstract fields"],
+        "explanation": "Verus proves on the real text of Automerge::transaction_args that seq = seq_for_actor+1, start_op = max_op+1, isolated deps = the given heads, "
+                       "non-isolated deps = current heads plus the actor's previous change without duplicate; and on the real ChangeGraph::update_heads / Automerge::update_deps that "
+                       "heads' = (heads \\ deps) + {hash}, with lemma_heads_preserved showing this keeps 'heads = applied changes nobody depends on'. Callees are assumed contracts (listed).",
+    },
+    "C38": {
+        "level": "proof",
+        "verus": [("u10_changes", ["push", "new", "has_hash", "has_actor_seq", "is_empty", "transaction_args"])],
+        "kani": [],
+        "not_under_contract": ["ChangeQueue::remove_actor_branch_from (closures over HashMap/VecDeque)", "ChangeQueue::extend / pop_topo_sorted_ready", "apply_changes_batch_log_patches loop", "ChangeGraph::add_changes seq assertion", "Automerge::seq_for_actor (assumed)"],
+        "trusted": ["std HashSet as a mathematical set (assumed stub contracts)", "Change accessors (hash, actor_id, seq) as abstract fields"],
+        "explanation": "Verus proves on the real ChangeBatch::push the index invariant (pairwise distinct (actor,seq), mirrored by both sets), rejection of a second change claiming a taken "
+                       "(actor,seq) with the batch unchanged, and idempotence on equal hashes; ChangeQueue::has_actor_seq / has_hash against that invariant; Automerge::has_actor_seq == "
+                       "(seq <= highest applied seq of the actor); and that transaction_args drops the conflicting queued branch for exactly (actor, seq) before returning.",
+    },
+    "C10": {
+        "level": "proof",
+        "verus": [("u03_chunk", "*")],
+        "kani": ["u03_leb128_writer_matches_parser", "u03_header_parse_q", "u03_header_parse_t", "u03_header_roundtrip_0", "u03_header_roundtrip_3", "u03_checksum_valid"],
+        "not_under_contract": ["ChangeCollector (rebuilding changes from columns)", "get_changes ordering", "Change::raw_bytes bookkeeping", "sha2::Sha256 (uninterpreted)"],
+        "trusted": ["sha2::Sha256 as an uninterpreted function of the bytes fed to it", "leb128 crate writer contract (backed by K harness u03_leb128_writer_matches_parser for all u64)"],
+        "explanation": "Verus proves on the real text of storage::chunk::hash that the hash is SHA-256 over type byte ++ LEB128(len) ++ data (every byte in the preimage); Kani shows the header is "
+                       "canonical (re-encoding a parsed header reproduces the wire bytes), so the hashed length is the wire length. The rest of C10 (change reconstruction, get_changes order) is not under contract.",
+    },
+    "C13": {
+        "level": "proof",
+        "verus": [("u02_parse", ["take_1", "take_n", "take_4", "take1", "take4", "rest", "take_rest", "leb128_u64", "leb128_u32", "new", "lift", "split", "truncate", "skip", "reset", "is_empty"])],
+        "kani": ["u03_header_parse_q", "u03_header_parse_t"],
+        "not_under_contract": ["storage::load::load_changes loop", "Automerge::load_with_options (OnPartialLoad policy)", "Chunk::parse dispatch and chunk bodies"],
+        "assumptions": ["input slices are shorter than usize::MAX (Input::wf)"],
+        "explanation": "Verus proves for inputs of ANY length that take_n/take_1/take_4 return Incomplete exactly when fewer bytes remain than asked (never Ok, never a panic) and that leb128_u64 "
+                       "returns Incomplete exactly when the input ends inside an encoding; Kani shows for every header shape that every strict prefix of header++data makes Header::parse return Incomplete. "
+                       "The load loop and the partial-load policy are not under contract (a genuine defect there, D8, is documented in DESIGN.md but outside this check's reach).",
+    },
+    "C14": {
+        "level": "proof",
+        "verus": [("u03_chunk", "*")],
+        "kani": ["u03_checksum_valid", "u03_chunktype_codes", "u03_header_parse_q", "u03_header_parse_t"],
+        "not_under_contract": ["the call of checksum_valid from load (automerge.rs load_with_options / storage::load)", "Document/Change/Bundle body parsers", "SHA-256 collision resistance (cryptographic assumption)"],
+        "trusted": ["sha2::Sha256 uninterpreted"],
+        "explanation": "Structural part only: checksum_valid compares all four checksum bytes with the first four hash bytes (complete over all values); the magic and type bytes are checked by Header::parse; "
+                       "every wire byte outside magic/checksum is in the SHA-256 preimage (Verus, hash) and the parsed length is the wire length (canonical header).",
+    },
+    "C30": {
+        "level": "proof",
+        "verus": [("u04_ids", ["exid_to_opid", "get_actor_safe", "new"])],
+        "kani": ["u04_opid_order", "u04_opid_actor_shift", "u04_opid_new"],
+        "not_under_contract": ["OpSet::lookup_actor (binary search; assumed contract, rests on the sorted duplicate-free actor table)", "OpSet::insert_actor column rewrite", "get_obj_meta"],
+        "assumptions": ["a document has at most u32::MAX actors"],
+        "explanation": "Verus proves on the real Automerge::exid_to_opid that an id resolves to an op id whose actor IS the id's actor whether the index hint is right, stale or out of range, and that an unknown "
+                       "actor gives Err; Kani proves (complete) that the actor-table shifts with_new_actor / without_actor preserve counters, order and distinctness and are mutually inverse.",
+    },
+    "C37": {
+        "level": "proof",
+        "verus": [("u04_ids", ["exid_to_opid", "op_cursor_to_opid", "new", "get_actor_safe"])],
+        "kani": ["u04_opid_new"],
+        "not_under_contract": ["every other public entry point", "the ~100 internal OpId::new call sites", "hydrate::Value::apply_patches"],
+        "assumptions": ["a document has at most u32::MAX actors"],
+        "explanation": "For the id/cursor argument conversions only: OpId::new's two unwrap()s become its precondition (verified on its real body), and Verus proves every call from exid_to_opid and "
+                       "op_cursor_to_opid establishes it for EVERY ExId / cursor value a caller can construct or decode.",
+    },
+})
 
 DOC = "no whole-document verification is within reach: Kani ICEs on any harness that builds an Automerge document and Verus cannot take the op-set engine (iterator adapters, closures, hexane columns); "
 NOT_APPLICABLE = {
